@@ -459,6 +459,7 @@ func init() {
 		c09PerOperation(r)
 		c09AuthCallbackPanics(r)
 		c09ResumedSession(r)
+		c09ContextMutation(r)
 		// the same on a single P: a burst of queued connections is accepted back to back before any session goroutine
 		// gets to run, so anything a session reads late from the accept loop's variables is read after the loop moved on
 		old := runtime.GOMAXPROCS(1)
